@@ -254,7 +254,14 @@ let cyclic = Cc::new_cyclic(|weak| {
             panic!("Cannot create a new Cc while tracing!");
         }
 
-        let cc = Cc::new(NewCyclicWrapper::new());
+        // Don't use Cc::new here: the automatically-started collection may panic, and the unwinding would then drop the
+        // (still uninitialized) NewCyclicWrapper. Trigger the collection before creating the wrapper instead
+        let cc = crate::state::state(|state| {
+            #[cfg(feature = "auto-collect")]
+            crate::trigger_collection(state);
+
+            Cc::__new_internal(CcBox::new(NewCyclicWrapper::new(), state))
+        });
 
         // Immediately call inner_ptr and forget the Cc instance. Having a Cc instance is dangerous, since:
         // 1. The strong count will become 0
